@@ -174,6 +174,29 @@ def _model_vs_real(seed, rounds=300):
                 break
         if len(failures) > 3:
             break
+    # SymBytes on concrete contents vs bytes: ordering (equal lengths), concatenation, slicing, reversal, hex, int conversion
+    from vf.bits import SymBytes, Seq
+    for _ in range(rounds):
+        n = rng.randrange(0, 6)
+        a = bytes(rng.randrange(256) for _ in range(n))
+        b = bytes(rng.choice([x, rng.randrange(256)]) for x in a)
+        ma, mbb = SymBytes.make(Seq.from_bytes(a)), SymBytes.make(Seq.from_bytes(b))
+        nops += 1
+        try:
+            for opn, f in (('<', lambda x, y: x < y), ('<=', lambda x, y: x <= y), ('>', lambda x, y: x > y), ('>=', lambda x, y: x >= y),
+                           ('==', lambda x, y: x == y)):
+                got = f(ma, mbb)
+                got = bool(got) if isinstance(got, bool) else None
+                if got is not None and got != f(a, b):
+                    failures.append(('symbytes', opn, a.hex(), b.hex()))
+            i, j = sorted((rng.randrange(0, n + 1), rng.randrange(0, n + 1)))
+            for what, x, y in (('add', (ma + mbb), a + b), ('slice', ma[i:j], a[i:j]), ('rev', ma[::-1], a[::-1])):
+                xs = x.seq if hasattr(x, 'seq') else Seq.from_bytes(bytes(x))
+                if xs.length() != 8 * len(y) or (len(y) and xs.value() != int.from_bytes(y, 'big')):
+                    failures.append(('symbytes', what, a.hex(), b.hex()))
+        except Exception as e:           # an op outside the model's fragment is loud, not wrong
+            if type(e).__name__ != 'Unsupported':
+                failures.append(('symbytes', type(e).__name__, str(e)[:80]))
     return nops, failures
 
 
